@@ -367,7 +367,9 @@ def explore(check, tier, seed):
     import multiprocessing as mp
     budget = check.BUDGET[tier]
     nshards = int(os.environ.get('VERIF_SHARDS', budget.get('shards', 16)))
-    total = budget['cases']
+    # VERIF_CASES_SCALE: fraction of the generated cases (used by tools/seedsweep.py for a first,
+    # cheaper pass over the seeded changes; a miss there is re-run with the full budget)
+    total = max(nshards, int(budget['cases'] * float(os.environ.get('VERIF_CASES_SCALE', 1))))
     seconds = budget.get('seconds', 600)
     per = [total // nshards + (1 if k < total % nshards else 0) for k in range(nshards)]
     jobs = [(check.__name__, tier, seed, k, nshards, per[k], seconds, True)
